@@ -54,6 +54,8 @@ func rulesC07(c *Ctx) {
 	singleEntryC07(c)
 	setParamsC07(c)
 	bindNonNilRule(c, "C07.bindnil")
+	valueTextC07(c)
+	regexKindC07(c, tt)
 	s := p.newSCCP()
 	// ---- kinds ----
 	c.Rule("C07.kinds", "every kind of bound value maps to exactly one fixed token (name->IDENT, string->STRING, regex->REGEX, float->NUMBER, integer->INTEGER, duration->DURATIONVAL, boolean->TRUE/FALSE by value, error->BOUNDPARAM), extracted from TokenType by constant propagation: the token never depends on the value's text, so a value cannot choose how it is lexed")
@@ -406,5 +408,162 @@ func rulesC07(c *Ctx) {
 		c.OK("C07.unbound", "(*Parser).parseUnaryExpr: BOUNDPARAM", pu.Pos(), fmt.Sprintf("all %d reachable returns carry a nil expression", len(rets)))
 	} else if len(rets) == 0 {
 		c.Unk("C07.unbound", "(*Parser).parseUnaryExpr: BOUNDPARAM", pu.Pos(), "no reachable return")
+	}
+}
+
+// valueTextC07: the text a bound value hands to the parser is the value
+// itself: the string kinds as they are, a float in the shortest form that
+// parses back to the same float64, an integer in base 10.
+func valueTextC07(c *Ctx) {
+	p := c.P
+	c.Rule("C07.valuetext", "Value() of every bound-value kind renders the value exactly: string kinds return their own text (a plain conversion), NumberValue prints with strconv.FormatFloat(float64(v), fmt, -1, 64) (shortest text that parses back to the same float64; a fixed precision or 32 bits rounds the bound value), IntegerValue with FormatInt(int64(v), 10)")
+	n := 0
+	for _, t := range p.Implementers("Value") {
+		tn := strings.TrimPrefix(p.TypeStr(t), "*")
+		f := p.SSAFunc(p.Method(tn, "Value"))
+		if f == nil || len(f.Params) == 0 || tn == "ErrorValue" {
+			continue
+		}
+		for _, b := range f.Blocks {
+			ret, ok := b.Instrs[len(b.Instrs)-1].(*ssa.Return)
+			if !ok || len(ret.Results) != 1 {
+				continue
+			}
+			n++
+			key := tn + ".Value: returned text"
+			recvOf := func(v ssa.Value) bool {
+				for i := 0; i < 4; i++ {
+					switch x := v.(type) {
+					case *ssa.Convert:
+						v = x.X
+						continue
+					case *ssa.ChangeType:
+						v = x.X
+						continue
+					}
+					break
+				}
+				return v == ssa.Value(f.Params[0])
+			}
+			constInt := func(v ssa.Value) (int64, bool) {
+				k, ok := v.(*ssa.Const)
+				if !ok || k.Value == nil {
+					return 0, false
+				}
+				return constant.Int64Val(constant.ToInt(k.Value))
+			}
+			r := ret.Results[0]
+			ub, _ := f.Params[0].Type().Underlying().(*types.Basic)
+			switch x := r.(type) {
+			case *ssa.Const:
+				if tn == "BooleanValue" {
+					c.OK("C07.valuetext", key, ret.Pos(), "a boolean is carried by its token, not by text")
+				} else {
+					c.Bad("C07.valuetext", key, ret.Pos(), "a constant text whatever the bound value is")
+				}
+			case *ssa.ChangeType, *ssa.Convert:
+				if recvOf(r) && ub != nil && ub.Kind() == types.String {
+					c.OK("C07.valuetext", key, ret.Pos(), "the value's own text")
+				} else {
+					c.Unk("C07.valuetext", key, ret.Pos(), "a conversion this rule does not classify")
+				}
+			case *ssa.Call:
+				cal := x.Call.StaticCallee()
+				name := ""
+				if cal != nil {
+					name = cal.String()
+				}
+				switch name {
+				case "strconv.FormatFloat":
+					prec, okP := constInt(x.Call.Args[2])
+					bits, okB := constInt(x.Call.Args[3])
+					switch {
+					case !okP || !okB || !recvOf(x.Call.Args[0]):
+						c.Unk("C07.valuetext", key, ret.Pos(), "FormatFloat with non-constant precision/size or another operand")
+					case prec != -1:
+						c.Bad("C07.valuetext", key, ret.Pos(), fmt.Sprintf("precision %d: the text is rounded to that many digits, the literal no longer carries the bound float", prec))
+					case bits != 64:
+						c.Bad("C07.valuetext", key, ret.Pos(), fmt.Sprintf("bit size %d: the text is the shortest that identifies a float%d, so a bound float64 is rounded to float%d precision", bits, bits, bits))
+					default:
+						c.OK("C07.valuetext", key, ret.Pos(), "FormatFloat(v, _, -1, 64): shortest exact text")
+					}
+				case "strconv.FormatInt":
+					base, okB := constInt(x.Call.Args[1])
+					switch {
+					case !okB || !recvOf(x.Call.Args[0]):
+						c.Unk("C07.valuetext", key, ret.Pos(), "FormatInt with a non-constant base or another operand")
+					case base != 10:
+						c.Bad("C07.valuetext", key, ret.Pos(), fmt.Sprintf("base %d: the parser reads the digits in base 10", base))
+					default:
+						c.OK("C07.valuetext", key, ret.Pos(), "FormatInt(v, 10)")
+					}
+				default:
+					c.Unk("C07.valuetext", key, ret.Pos(), "rendered by a function this rule has no exactness argument for")
+				}
+			default:
+				c.Unk("C07.valuetext", key, ret.Pos(), "a form of result this rule does not classify")
+			}
+		}
+	}
+	c.Floor("C07.valuetext", n, 7)
+}
+
+// regexKindC07: parseRegex yields a RegexLiteral only for a REGEX token.
+func regexKindC07(c *Ctx, tt *tokenTable) {
+	p := c.P
+	c.Rule("C07.regexkind", "parseRegex, evaluated by constant propagation with the scanned token bound to each token in turn (the probe Scan and the ScanRegex that follows see the same token), returns a RegexLiteral only for REGEX: a value bound as a string, name or number is never re-typed as a regular expression where the grammar probes for one")
+	f := p.SSAFunc(p.Method("Parser", "parseRegex"))
+	scan := p.SSAFunc(p.Method("Parser", "Scan"))
+	scanRe := p.SSAFunc(p.Method("Parser", "ScanRegex"))
+	if f == nil || scan == nil || scanRe == nil {
+		c.Unk("C07.regexkind", "parseRegex", 0, "anchor not found")
+		return
+	}
+	var names []string
+	for n := range tt.ByName {
+		names = append(names, n)
+	}
+	sort.Strings(names)
+	nScan := 0
+	for _, b := range f.Blocks {
+		for _, in := range b.Instrs {
+			if call, ok := in.(*ssa.Call); ok {
+				if cal := call.Call.StaticCallee(); cal == scan || cal == scanRe {
+					nScan++
+				}
+			}
+		}
+	}
+	if nScan == 0 {
+		c.Unk("C07.regexkind", "parseRegex: scans", f.Pos(), "parseRegex does not scan a token itself")
+		return
+	}
+	var wrong []string
+	regexOK := false
+	for _, name := range names {
+		s := p.newSCCP()
+		tv := tt.cv(name)
+		s.hook = func(call *ssa.Call, args []cval) ([]cval, bool) {
+			if cal := call.Call.StaticCallee(); cal == scan || cal == scanRe {
+				return []cval{tv, cTop, cTop}, true
+			}
+			return nil, false
+		}
+		for _, rp := range s.Eval(f, nil) {
+			if len(rp.Results) != 2 || rp.Results[0].nilc {
+				continue
+			}
+			if name == "REGEX" {
+				regexOK = true
+			} else {
+				wrong = append(wrong, name)
+			}
+		}
+	}
+	c.Check(regexOK, "C07.regexkind", "parseRegex: REGEX token", f.Pos(), "a REGEX token must yield a RegexLiteral")
+	if len(wrong) == 0 {
+		c.OK("C07.regexkind", "parseRegex: other tokens", f.Pos(), fmt.Sprintf("%d other tokens yield no literal", len(names)-1))
+	} else {
+		c.Bad("C07.regexkind", "parseRegex: other tokens", f.Pos(), "a RegexLiteral is also built for "+joinShort(wrong)+": a parameter bound to such a value is compiled as a regular expression where the grammar probes for a regex (call arguments, FROM, WITH KEY)")
 	}
 }
